@@ -278,6 +278,23 @@ class Visit:
         return out if seen else None
 
 
+DROPPING_ADAPTORS = {"filter", "skip", "take", "step_by", "skip_while", "take_while", "nth", "last", "first", "find", "next",
+                     "next_back", "peekable_next", "min", "max", "min_by_key", "max_by_key", "get", "split_first", "split_last"}
+
+
+def _drops_elements(recv):
+    """does the iterator chain in front of an adaptor drop elements of the collection (filter / skip / take ..)?"""
+    r = peel(recv)
+    while isinstance(r, dict) and r.get("k") == "MethodCall":
+        if r["m"] in DROPPING_ADAPTORS:
+            return True
+        if r["m"] == "filter_map":
+            # total when the closure answers Some on every path - not examined: treat as dropping
+            return True
+        r = peel(r["recv"])
+    return False
+
+
 def must_visit(n, derived, is_fold_call, depth=0):
     """does evaluating n necessarily hand (something derived from) the child to a fold function?
     if/match count only when every non-diverging branch does; a closure counts when it is passed to an adaptor over a
@@ -321,6 +338,9 @@ def must_visit(n, derived, is_fold_call, depth=0):
                     if Flow.mentions(n["recv"], derived) and must_visit(a["body"], derived, is_fold_call, depth + 1):
                         return True
                 elif must_visit(a["body"], derived, is_fold_call, depth + 1):
+                    # .. for every element only if nothing in front of this adaptor lets elements go
+                    if _drops_elements(n["recv"]):
+                        return False
                     return True
             elif must_visit(a, derived, is_fold_call, depth + 1):
                 return True
